@@ -44,14 +44,14 @@ pub use backend::*;
 pub mod net;
 #[cfg(feature = "vhost-vdpa")]
 pub mod vdpa;
+#[cfg(feature = "verif-hooks")]
+pub mod verif;
 #[cfg(feature = "vhost-kern")]
 pub mod vhost_kern;
 #[cfg(feature = "vhost-user")]
 pub mod vhost_user;
 #[cfg(feature = "vhost-vsock")]
 pub mod vsock;
-#[cfg(feature = "verif-hooks")]
-pub mod verif;
 
 // Due to the way `xen` handles memory mappings we can not combine it with
 // `postcopy` feature which relies on persistent memory mappings. Thus we
